@@ -1,5 +1,6 @@
 mod enumerate;
 mod explore;
+mod exprparse;
 mod lex;
 mod props;
 mod report;
